@@ -233,6 +233,13 @@ def r3(ctx):
     rd = pc.methods["ReadProperty"]
     sub = [n for n in walk_shallow(rd) if isinstance(n, ast.Subscript) and norm(n.slice) == "arrayIndex" and norm(n.value) == "value"]
     ctx.check("Property.ReadProperty:uses-array-indexing", len(sub) == 1, where(pc.module, rd), "element reads go through the array's own indexing (0 = length)")
+    if len(sub) == 1:
+        evp = Evaluator(prog, pc.module, pc)
+        fa = [z for z in facts_at(sub[0]) if "value" in {n.id for n in ast.walk(z.test) if isinstance(n, ast.Name)}]
+        # an empty array is falsy (ArrayOf defines __len__) but still answers index 0 with its length and refuses the rest
+        reach = [lab for lab, v in (("None", None), ("empty", ()), ("non-empty", (1, 2))) if evp.may_hold(fa, {"value": v})]
+        ctx.check("Property.ReadProperty:indexes-every-array", reach == ["empty", "non-empty"], where(pc.module, sub[0]),
+                  "the array's indexing must be reached for every array value, empty or not, and only skipped when there is no value; reached for %s" % reach)
     # computed property list
     lo = prog.module("local.object")
     cpl = prog.cls("local.object", "CurrentPropertyList")
@@ -333,6 +340,38 @@ def r4(ctx):
     g = so.functions["read_property_to_result_element"]
     calls = [x for x in calls_in(g) if norm(x.func) == "read_property_to_any"]
     ctx.check("read_property_to_result_element:uses-read_property_to_any", len(calls) == 1 and [norm(a_) for a_ in calls[0].args] == [x.arg for x in g.args.args], where(so, g), "the element value comes from read_property_to_any(obj, property, index)")
+    # per-specification results are built from scratch: no list carried over from the previous read access specification,
+    # no value read before it is assigned in the current pass
+    from ..defassign import stale_accumulators, stale_loop_flags, maybe_undefined
+    for k in (c, mc):
+        for hn, hf in k.methods.items():
+            if not hn.startswith("do_"):
+                continue
+            acc = stale_accumulators(hf)
+            fl = stale_loop_flags(hf)
+            und = maybe_undefined(hf)
+            ctx.check("%s:fresh-per-iteration" % hn, not acc and not fl and not und, where(so, (acc or fl or [(None, hf)])[0][1] if (acc or fl) else (und[0][1] if und else hf)),
+                      "; ".join(["'%s' keeps growing across passes of the loop at line %d but is handed on in every pass (line %d): a result then also lists what belongs to the previous ones" % (n, lp.lineno, x.lineno) for n, x, lp in acc] +
+                                ["'%s' (line %d) may carry the value of the previous pass of the loop at line %d" % (n, x.lineno, lp.lineno) for n, x, lp in fl] +
+                                ["'%s' (line %d) may be read before it is assigned" % (n, x.lineno) for n, x in und]))
+    from .common import check_names_bound
+    check_names_bound(ctx, ["service.object", "object", "local.object"])
+    # the request's fields reach the object: identifier and array index on every read / pre-check / write, priority on the write
+    wp = c.methods.get("do_WritePropertyRequest")
+    if wp is None:
+        raise AnchorMissing("do_WritePropertyRequest")
+    for fn, meth, want in ((rp, "ReadProperty", ["apdu.propertyIdentifier", "apdu.propertyArrayIndex"]),
+                           (wp, "ReadProperty", ["apdu.propertyIdentifier", "apdu.propertyArrayIndex"]),
+                           (wp, "WriteProperty", ["apdu.propertyIdentifier", "value", "apdu.propertyArrayIndex", "apdu.priority"])):
+        ap = fn.args.args[1].arg
+        calls = [x for x in calls_in(fn) if isinstance(x.func, ast.Attribute) and x.func.attr == meth and norm(x.func.value) == "obj"]
+        got = [norm(a_).replace(ap + ".", "apdu.") for a_ in calls[0].args] if len(calls) == 1 and not calls[0].keywords else None
+        ctx.check("%s:obj.%s-arguments" % (fn.name, meth), got == want, where(so, calls[0] if calls else fn),
+                  "obj.%s must be given %s from the request (found %s): an index or priority that is dropped is neither honoured nor refused" % (meth, want, got))
+    g2 = so.functions.get("read_property_to_any")
+    calls = [x for x in calls_in(g2) if isinstance(x.func, ast.Attribute) and x.func.attr == "ReadProperty" and norm(x.func.value) == "obj"]
+    ctx.check("read_property_to_any:obj.ReadProperty-arguments", len(calls) == 1 and [norm(a_) for a_ in calls[0].args] == [x.arg for x in g2.args.args[1:3]], where(so, g2),
+              "ReadPropertyMultiple reads with the reference's identifier and array index")
     # the device wildcard
     for fn, var in ((rp, "objId"), (h, "objectIdentifier")):
         st = [s for s in walk_shallow(fn) if isinstance(s, ast.Assign) and norm(s.targets[0]) == var and norm(s.value) == "self.localDevice.objectIdentifier"]
